@@ -86,6 +86,10 @@ def check(ctx):
         r = ctx.tlc("Ring", "RingMCthorough8.cfg", workers=16, timeout=1500)
         if not r.ok:
             ctx.model_violation(r, "Ring invariants (size 8)")
+    if ctx.thorough:   # beyond the exhaustive bound: random behaviours of rings of 9..17 slots, invariants checked in every state
+        r = ctx.tlc("Ring", "RingSim.cfg", workers=16, simulate=3000, depth=80, coverage=False, timeout=1500)
+        if not r.ok:
+            ctx.model_violation(r, "Ring invariants (simulation, sizes 9..17)")
     r = ctx.tlc("Cyclic", "CyclicMC.cfg", workers=4, timeout=600)
     if not r.ok:
         ctx.model_violation(r, "Cyclic invariants")
